@@ -115,8 +115,19 @@ func (b *backend) serve(c net.Conn) {
 var statusText = map[int]string{200: "OK", 201: "Created", 204: "No Content", 301: "Moved Permanently", 404: "Not Found", 500: "Internal Server Error", 503: "Service Unavailable"}
 
 // rawResponse renders the scripted response of a case.
-func rawResponse(status int, lines []string, body []byte, chunked bool, trailers string) []byte {
+func rawResponse(status int, lines []string, body []byte, chunked bool, trailers string, eof bool) []byte {
 	var w bytes.Buffer
+	if eof && status != 204 && trailers == "none" {
+		// a response of unknown length: HTTP/1.0, neither Content-Length nor chunked, delimited
+		// by the close of the connection (the backend closes after writing it)
+		fmt.Fprintf(&w, "HTTP/1.0 %d %s\r\n", status, statusText[status])
+		for _, l := range lines {
+			w.WriteString(l + "\r\n")
+		}
+		w.WriteString("\r\n")
+		w.Write(body)
+		return w.Bytes()
+	}
 	fmt.Fprintf(&w, "HTTP/1.1 %d %s\r\n", status, statusText[status])
 	for _, l := range lines {
 		w.WriteString(l + "\r\n")
